@@ -261,3 +261,165 @@ def run(ctx):
         norm = lambda s: {f.replace('_canonical_exponent', '_exponent') for f in s}
         ok = norm(fa) == norm(fb)
         ctx.ob('C08.d', ci.qual, ok, '' if ok else f'exact equality reads {sorted(fa)} but approximate equality reads {sorted(fb)}', ci.mod.rel, a.lineno)
+
+    _commutes_rules(ctx, repo)
+
+
+def _commutes_rules(ctx, repo):
+    """C08.e - `commutes` never answers True on evidence that is blind to the global phase."""
+    from . import c03
+    ctx.decided.append('C08.e no _commutes_ implementation derives a True answer from equality of Clifford tableaux (tableaux identify gates only up to global phase: '
+                       'X and Z have equal products in both orders); the classes ZPowGate._commutes_on_qids_ declares as commuting are all diagonal')
+    ctx.rule('C08.e', 'commutes soundness: a True answer of _commutes_ / _commutes_on_qids_ is not a comparison of CliffordTableau products (phase-blind), '
+             'and a family declared to commute with Z-type gates has only diagonal eigen-components', floor=16, style='COH')
+
+    def tableau_equalities(expr, ci, depth=0):
+        """Compare(==) nodes whose operands are tableau products, looking through one level of self.method() calls"""
+        out = []
+        for n in ast.walk(expr):
+            if isinstance(n, ast.Compare) and any(isinstance(o, ast.Eq) for o in n.ops):
+                src = ast.unparse(n)
+                if 'clifford_tableau' in src or '.then(' in src:
+                    out.append(n)
+            if isinstance(n, ast.Call) and isinstance(n.func, ast.Attribute) and isinstance(n.func.value, ast.Name) and n.func.value.id == 'self' and depth < 2:
+                m = repo.find_method(ci, n.func.attr)
+                if m is not None:
+                    mfn = m[1] if isinstance(m, tuple) else m
+                    names = {}
+                    for st in ast.walk(mfn):
+                        if isinstance(st, ast.Assign) and len(st.targets) == 1 and isinstance(st.targets[0], ast.Name):
+                            names[st.targets[0].id] = st.value
+                    for r in ast.walk(mfn):
+                        if isinstance(r, ast.Return) and r.value is not None:
+                            # substitute locals by their definitions (one level) to see what is compared
+                            txt = r.value
+                            cmp_ = [c for c in ast.walk(txt) if isinstance(c, ast.Compare) and any(isinstance(o, ast.Eq) for o in c.ops)]
+                            for c in cmp_:
+                                operands = [c.left] + list(c.comparators)
+                                defs = [names.get(o.id) if isinstance(o, ast.Name) else o for o in operands]
+                                if any(d is not None and ('.then(' in ast.unparse(d) or 'clifford_tableau' in ast.unparse(d)) for d in defs):
+                                    out.append(c)
+                            out += tableau_equalities(r.value, ci, depth + 1)
+        return out
+    n_impl = 0
+    for ci in sorted(repo.classes.values(), key=lambda c: c.qual):
+        if '.testing.' in ci.qual or '.contrib.' in ci.qual:
+            continue
+        for mn in ('_commutes_', '_commutes_on_qids_'):
+            fn = ci.methods.get(mn)
+            if fn is None:
+                continue
+            n_impl += 1
+            bad = []
+            for r in ast.walk(fn):
+                if isinstance(r, ast.Return) and r.value is not None and not (isinstance(r.value, ast.Constant) and r.value.value in (False, None)) \
+                        and not (isinstance(r.value, ast.Name) and r.value.id == 'NotImplemented'):
+                    bad += tableau_equalities(r.value, ci)
+            ctx.ob('C08.e', f'{ci.qual}.{mn}:phase-exact', not bad,
+                   '' if not bad else f'{mn} answers True when two Clifford tableau products are equal ({ast.unparse(bad[0])[:80]}): the tableau drops the global phase, '
+                   'so anticommuting gates (X, Z) are reported as commuting', ci.mod.rel, fn.lineno)
+    # families declared diagonal
+    z = repo.cls('cirq.ops.common_gates.ZPowGate')
+    fn = z.methods.get('_commutes_on_qids_')
+    if fn is None:
+        raise AnalysisError('ZPowGate._commutes_on_qids_ vanished')
+    tups = [n for n in ast.walk(fn) if isinstance(n, ast.Call) and call_name(n) == 'isinstance' and len(n.args) == 2 and isinstance(n.args[1], ast.Tuple)]
+    if not tups:
+        raise AnalysisError('ZPowGate._commutes_on_qids_: class tuple vanished')
+    for e in tups[0].args[1].elts:
+        K = repo.resolve_in_func(z.mod, fn, ast.unparse(e))
+        if K is None or not hasattr(K, 'qual'):
+            raise AnalysisError(f'ZPowGate._commutes_on_qids_: cannot resolve {ast.unparse(e)}')
+        comps, _ = c03._components(repo, K, 2 if (K.qual, 2) in c03.REFERENCE else None)
+        diag = all(np.allclose(m, np.diag(np.diag(m))) for _, m in comps)
+        ctx.ob('C08.e', f'{z.qual}._commutes_on_qids_:{K.name}:diagonal', diag, '' if diag else f'{K.name} is declared to commute with every Z-type gate but its eigen-components are not diagonal',
+               z.mod.rel, fn.lineno)
+
+    _trace_distance_rules(ctx, repo)
+
+
+def _true_trace_distance(angles):
+    """max over states of the trace distance between rho and U rho U^dag for a unitary with these eigen-phases:
+    sqrt(1 - d^2), d = distance from the origin to the convex hull of exp(i angle_k)."""
+    a = np.sort(np.mod(np.asarray(angles, dtype=float), 2 * np.pi))
+    if len(a) == 0:
+        return 0.0
+    gaps = list(np.diff(a)) + [2 * np.pi - (a[-1] - a[0])]
+    span = 2 * np.pi - max(gaps)          # smallest arc containing every eigen-phase
+    if span >= np.pi - 1e-12:
+        return 1.0
+    return float(np.sin(span / 2))
+
+
+def _trace_distance_rules(ctx, repo):
+    from . import c03
+    from .. import fold
+    ctx.decided.append('C08.f every _trace_distance_bound_ override of an eigen-gate family (interpreted at probe exponents) is at least the exact maximum trace distance '
+                       'computed from the family\'s own eigen-shifts; trace_distance_from_angle_list (interpreted on probe angle lists) is that exact value')
+    ctx.rule('C08.f', 'trace-distance bound soundness: bound(exponent) >= sin(span/2) (1 if the eigen-phases span at least half the circle) for every probe exponent, '
+             'where span is the smallest arc containing exp(i pi exponent shift_k) over the extracted eigen-shifts', floor=15, style='FDX')
+    Eigen = repo.cls('cirq.ops.eigen_gate.EigenGate')
+    PROBES = (0, 0.125, 0.25, 0.5, 0.75, 1, 1.25, 1.5, 2, -0.3, 3.7, 0.999)
+    n_cls = 0
+    for ci in sorted(repo.subclasses(Eigen), key=lambda c: c.qual):
+        if '.testing.' in ci.qual or '.contrib.' in ci.qual:
+            continue
+        fn = ci.methods.get('_trace_distance_bound_')
+        if fn is None or '_eigen_components' not in ci.methods:
+            continue
+        try:
+            comps, _ = c03._components(repo, ci, 2)
+        except (fold.NotLiteral, AnalysisError) as e:
+            ctx.unres('C08.f', ci.qual, f'eigen-components not extractable: {e}', ci.mod.rel, fn.lineno)
+            continue
+        shifts = [complex(t).real for t, _ in comps]
+        n_cls += 1
+        worst = None
+        for e in PROBES:
+            self_obj = {'_exponent': e, 'exponent': e, '_global_shift': 0.0, '_dimension': 2, 'dimension': 2}
+
+            def call_hook(call, it):
+                s = ast.unparse(call.func)
+                if s.endswith('is_parameterized') or s.endswith('_is_parameterized_'):
+                    return False
+                return NotImplemented
+            it = fdx.NumInterp({'self': self_obj}, call_hook=call_hook)
+            try:
+                got = it.call(fn)
+            except fdx.Unsupported as ex:
+                raise AnalysisError(f'{ci.qual}._trace_distance_bound_ is outside the interpretable subset: {ex}')
+            want = _true_trace_distance([np.pi * e * s for s in shifts])
+            if got is None:
+                continue
+            if float(got) < want - 1e-9 and worst is None:
+                worst = (e, float(got), want)
+        ctx.ob('C08.f', f'{ci.qual}._trace_distance_bound_', worst is None,
+               '' if worst is None else f'at exponent {worst[0]} the override returns {worst[1]:.6f} but the eigen-shifts {shifts} give a maximum trace distance of {worst[2]:.6f}: '
+               'not an upper bound', ci.mod.rel, fn.lineno)
+    if n_cls < 8:
+        raise AnalysisError(f'only {n_cls} eigen-gate families with a _trace_distance_bound_ override could be analysed')
+    # the generic helper
+    tm = repo.module('cirq-core/cirq/protocols/trace_distance_bound.py')
+    hf = tm.defs.get('trace_distance_from_angle_list')
+    if hf is None:
+        raise AnalysisError('trace_distance_from_angle_list vanished')
+    rng = np.random.RandomState(7)
+    lists = [[0.0], [0.0, np.pi], [0.0, 0.3], [0.1, 0.2, 3.0], [0, np.pi / 2, np.pi], [-1.0, 1.0], [0.0, 2.0, 4.0], [0.5, 0.5], [0.0, np.pi - 1e-3]]
+    lists += [list(rng.uniform(0, 2 * np.pi, size=k)) for k in (2, 3, 4, 6) for _ in range(4)]
+    lists += [list(rng.uniform(0, 1.0, size=k)) for k in (2, 3, 5) for _ in range(3)]
+    bad = None
+    for al in lists:
+        it = fdx.NumInterp({'angle_list': list(al)})
+        try:
+            got = it.call(hf)
+        except fdx.Unsupported as ex:
+            raise AnalysisError(f'trace_distance_from_angle_list is outside the interpretable subset: {ex}')
+        want = _true_trace_distance(al)
+        if float(got) < want - 1e-9 and bad is None:
+            bad = (al, float(got), want)
+    ctx.ob('C08.f', 'cirq.protocols.trace_distance_bound.trace_distance_from_angle_list', bad is None,
+           '' if bad is None else f'for eigen-phases {np.round(bad[0], 3).tolist()} the helper returns {bad[1]:.6f} < the exact maximum trace distance {bad[2]:.6f}', tm.rel, hf.lineno)
+    eg = Eigen.methods.get('_trace_distance_bound_')
+    ok = eg is not None and any(isinstance(c, ast.Call) and call_name(c) == 'trace_distance_from_angle_list' for c in ast.walk(eg)) and '_eigen_shifts' in ast.unparse(eg) \
+        and '_exponent' in ast.unparse(eg)
+    ctx.ob('C08.f', 'cirq.ops.eigen_gate.EigenGate._trace_distance_bound_', ok, '' if ok else 'the default bound is no longer computed from the eigen-shifts times the exponent', Eigen.mod.rel, getattr(eg, 'lineno', 1))
